@@ -131,8 +131,13 @@ func (z *ZodStruct[T, R]) Parse(input any, ctx ...*core.ParseContext) (R, error)
 		parseCtx,
 	)
 	if err != nil {
-		// Check if this is a generic struct type error that we can improve
-		if errStr := err.Error(); strings.Contains(errStr, "Invalid input: expected struct, received") {
+		// Improve the engine's own root-level type error (the input is not a T, *T or map). An issue of a
+		// field that happens to carry the same text (a nil in a nested struct field) is the field's issue
+		// and keeps its path - StrictParse reports it unchanged as well.
+		var zerr *issues.ZodError
+		if errors.As(err, &zerr) && len(zerr.Issues) == 1 && len(zerr.Issues[0].Path) == 0 &&
+			zerr.Issues[0].Code == core.InvalidType &&
+			strings.Contains(zerr.Issues[0].Message, "Invalid input: expected struct, received") {
 			return zero, z.createStructTypeError(input, parseCtx)
 		}
 		return zero, err
